@@ -14,7 +14,7 @@ from ..Utilities import Terminal, Tic, _types, _params
 # fem
 if TYPE_CHECKING:
     from ..FEM import Mesh
-from ..FEM import MatrixType, ElemType, LagrangeCondition, FeArray
+from ..FEM import Mesh, MatrixType, ElemType, LagrangeCondition, FeArray
 from ..FEM.Operators import Bilinear
 
 # beam elements
@@ -126,6 +126,19 @@ class Beam(_Simu):
         [beam._Add_observer(self) for beam in model.beams]  # type: ignore [func-returns-value]
 
     useTimoshenko: bool = _params.BoolParameter()
+
+    @_Simu.mesh.setter
+    def mesh(self, mesh: Mesh):
+        # the simulation works on beam elements: a replacement mesh is converted like the first one
+        if isinstance(mesh, Mesh) and not all(
+            isinstance(groupElem, (_Timoshenko, _EulerBernoulli))
+            for groupElem in mesh.Get_list_groupElem(1)
+        ):
+            if self.useTimoshenko:
+                mesh = _Construct_Timoshenko_mesh(mesh)
+            else:
+                mesh = _Construct_Euler_Bernoulli_mesh(mesh)
+        _Simu.mesh.fset(self, mesh)  # type: ignore [attr-defined]
 
     def Results_nodeFields_elementFields(
         self, details=False
